@@ -10,6 +10,8 @@ import Driver.Codec
 import Driver.Wallet
 import Driver.Genesis
 import Driver.Verify
+import Driver.Proto
+import Driver.Sync
 /-
 One line per handler object. The first handler that understands a line answers it.
 -/
@@ -32,7 +34,9 @@ def registry : List Obj := [
   pureObj pureCodec,
   pureObj pureWallet,
   pureObj pureGenesis,
-  pureObj VerifyD.pureVerify
+  pureObj VerifyD.pureVerify,
+  pureObj pureProto,
+  mkObj ([] : SyncSt) syncStep
 ]
 
 end ZV.Driver
